@@ -157,8 +157,12 @@ class System:
                 # inside the context the time type is switched to int (which also moves the time, as any jump
                 # inside the context may); leaving the context must still restore the entry time exactly
                 self.tf(int(self.tf()), time_type=int)
-            if a["raising"]:
-                self.tf.__exit__(RuntimeError, RuntimeError("body"), None)
+            if a["how"] == "error":
+                if self.tf.__exit__(RuntimeError, RuntimeError("body"), None):
+                    self.fault = ("context_exit", "leaving the time context with a RuntimeError swallowed the exception")
+            elif a["how"] == "stop":
+                if not self.tf.__exit__(StopIteration, StopIteration(), None):
+                    self.fault = ("context_exit", "leaving the time context with StopIteration did not swallow it (documented: StopIteration ends the context quietly)")
             else:
                 self.tf.__exit__(None, None, None)
             self.cms.pop()
@@ -206,6 +210,8 @@ class System:
 
     def check(self, st, ret, got):
         name = st["act"]["name"]
+        if getattr(self, "fault", None):
+            return self.fault
         if not self.tf.param.objects("existing")["time_type"].constant:
             # (a C14 fact observed here: Time lifts the constant flag of its own time_type to switch the type)
             return ("time_type_unlocked", "after Time.__call__(val, time_type=...) the constant parameter time_type of the Time object is left assignable")
